@@ -38,6 +38,7 @@ func init() {
 			{Name: "ordered-participants", Run: c10Ordered, QuickS: 60, ThoroughS: 600},
 			{Name: "whole-start-schedules", Run: c10Whole, QuickS: 60, ThoroughS: 900},
 			{Name: "processor-creation-order", Run: c10ProcOrder, Workers: 4, QuickS: 30, ThoroughS: 120},
+			{Name: "factory-processor-view", Run: c10FPPView, Workers: 4, QuickS: 30, ThoroughS: 120},
 		},
 	})
 }
@@ -724,5 +725,123 @@ func c10ProcOrder(c *core.Ctx) {
 		}
 		c.Outcome("procorder/same")
 		c.Sample(map[string]any{"case": cs, "outcome": a})
+	})
+}
+
+// ---- what a user factory post-processor sees of the registered components must not depend on where
+// the singleton registry's enumeration meets the processor itself
+
+type c10FPP struct {
+	name  string
+	guard string
+	seen  []string
+	user  map[string]bool
+}
+
+func (p *c10FPP) Naming() string { return p.name }
+func (p *c10FPP) PostProcessComponentFactory(f container.Factory) error {
+	p.seen = nil
+	for n := range f.GetRegisteredComponents() {
+		if p.user[n] {
+			p.seen = append(p.seen, n)
+		}
+	}
+	sort.Strings(p.seen)
+	if p.guard != "" {
+		if _, ok := f.GetRegisteredComponents()[p.guard]; !ok {
+			return fmt.Errorf("component %s must be registered", p.guard)
+		}
+	}
+	return nil
+}
+
+type c10Plain struct{ n string }
+
+func (p *c10Plain) Naming() string { return p.n }
+
+func c10FPPView(c *core.Ctx) {
+	type fc struct {
+		FPPName string `json:"processor_name"`
+		Guard   string `json:"guarded_component,omitempty"`
+		Two     bool   `json:"second_processor,omitempty"`
+	}
+	gen := func(yield func(fc) bool) {
+		for _, nm := range []string{"0-fpp", "k-fpp", "zz-fpp"} {
+			for _, g := range []string{"", "a", "m", "z"} {
+				for _, two := range []bool{false, true} {
+					if !yield(fc{nm, g, two}) {
+						return
+					}
+				}
+			}
+		}
+	}
+	Cases(c, gen, func(c *core.Ctx, cs fc) {
+		names := []string{"a", "m", "z", cs.FPPName}
+		if cs.Two {
+			names = append(names, "n-fpp2")
+		}
+		user := map[string]bool{}
+		for _, n := range names {
+			user[n] = true
+		}
+		outcomes := map[string][]int{}
+		first := ""
+		n := len(names)
+		for k := 0; k < factorialInt(n); k++ {
+			perm := scen.NthPerm(n, k)
+			fpp := &c10FPP{name: cs.FPPName, guard: cs.Guard, user: user}
+			byName := map[string]any{"a": &c10Plain{"a"}, "m": &c10Plain{"m"}, "z": &c10Plain{"z"}, cs.FPPName: fpp}
+			var fpp2 *c10FPP
+			if cs.Two {
+				fpp2 = &c10FPP{name: "n-fpp2", user: user}
+				byName["n-fpp2"] = fpp2
+			}
+			var base []string
+			var reg []any
+			for _, i := range perm {
+				base = append(base, names[i])
+				reg = append(reg, byName[names[i]])
+			}
+			o := scen.Start(scen.StartSpec{Ch: envx.Fixed("", nil), Comps: reg, User: user, Base: base})
+			c.S.Evaluations++
+			c.S.States++
+			c.S.Transitions += int64(o.Trace.Calls)
+			sig := fmt.Sprintf("started=%v sees=%v", o.OK(), fpp.seen)
+			if fpp2 != nil {
+				sig += fmt.Sprintf(" second-sees=%v", fpp2.seen)
+			}
+			if o.Panic != "" || o.Abort != "" {
+				sig = "panic: " + o.Panic + o.Abort
+			}
+			if k == 0 {
+				first = sig
+			}
+			if _, ok := outcomes[sig]; !ok {
+				outcomes[sig] = perm
+			}
+		}
+		c.S.Programs++
+		c.S.Nontrivial++
+		key := "C10/fppview/" + core.Hash(cs)
+		want := append([]string{}, names...)
+		sort.Strings(want)
+		switch {
+		case len(outcomes) > 1:
+			var other string
+			for s := range outcomes {
+				if s != first {
+					other = s
+				}
+			}
+			c.Outcome("fpp-view/order-dependent")
+			c.Report(key, "order-dependent", fmt.Sprintf("components a, m, z and a user factory post-processor %q (guarding %q): %q under the identity enumeration order, %q under order %v", cs.FPPName, cs.Guard, first, other, outcomes[other]), cs)
+		case !strings.Contains(first, fmt.Sprintf("sees=%v", want)):
+			c.Outcome("fpp-view/incomplete")
+			c.Report(key, "order-dependent", fmt.Sprintf("a user factory post-processor %q sees %s of the registered components %v", cs.FPPName, first, want), cs)
+		default:
+			c.Outcome("fpp-view/complete-under-every-order")
+		}
+		c.Sample(map[string]any{"case": cs, "orders": factorialInt(n), "outcome": first})
 	})
 }
